@@ -5,6 +5,7 @@ Non-re-entrancy is structural in the model (`update` is a pure function that can
 implementation it is monitored by a re-entrancy flag in the harness app (oracle key `reentrant-update`).
 -/
 import CruxVerif.Lemmas.RtCore
+import CruxVerif.Lemmas.EvOrder
 namespace Props.C03
 open M.Rt
 
@@ -35,5 +36,41 @@ theorem emission_fifo (w : World) (ev : Ev) (cid : Nat) :
 /-- when the call returns, every emitted event has been applied (the view read afterwards reflects all of them) -/
 theorem all_applied_at_return (k k' : Core) (effs : List Eff) (h : process k = some (effs, k')) :
     k'.w.coreEvents = [] := (process_post k k' effs h).2.1
+
+/-- **EVENTS ARE APPLIED IN THE ORDER IN WHICH THEY WERE ENQUEUED, EACH EXACTLY ONCE — through a whole call.** The history
+    `HQ k = k.log ++ k.w.coreEvents` (what `update` has applied, followed by what waits in the event channel) only ever grows
+    at its END during `Core::process`: `update` moves the head of the channel to the end of the log, which leaves the history
+    unchanged, and every emission — by the CommandSpawner forwarding a command's events, by a legacy capability task at any
+    point of its poll — appends to the channel. Nothing applied or waiting is ever lost, duplicated or reordered, for EVERY
+    app, world and fuel (frame `CEA` over one poll of ANY legacy block by a single `grind` call; commands never touch the
+    channel: `command_never_writes_core_queues`; Lemmas/EvOrder.lean). -/
+theorem history_append_only (k : Core) (es : List Eff) (k' : Core) (h : process k = some (es, k')) :
+    ∃ s, k'.log ++ k'.w.coreEvents = k.log ++ k.w.coreEvents ++ s :=
+  process_ha k es k' h
+
+/-- … so when the call returns the log is the old log, then everything that was waiting, in channel order, then the events
+    enqueued during the call, in the order in which they were enqueued -/
+theorem waiting_events_applied_first_in_order (k : Core) (es : List Eff) (k' : Core) (h : process k = some (es, k')) :
+    k'.w.coreEvents = [] ∧ ∃ s, k'.log = k.log ++ k.w.coreEvents ++ s :=
+  M.Hosts.process_log_ext k es k' h
+
+/-- the shell's own event is applied first in its call (between calls the channel is empty: `channel_empty_between_calls`) -/
+theorem shell_event_applied_first (ev : Ev) (k : Core) (es : List Eff) (k' : Core) (h : processEvent ev k = some (es, k'))
+    (h0 : k.w.coreEvents = []) : k'.w.coreEvents = [] ∧ ∃ s, k'.log = k.log ++ ev :: s :=
+  M.Hosts.processEvent_log_ext ev k es k' h h0
+
+/-- OVER WHOLE RUNS of a Core running ANY app: between calls the event channel is empty (every emitted event has been
+    applied — the view read after a call reflects all of them), and a further call only EXTENDS the log: what has been
+    applied is never revised -/
+theorem channel_empty_between_calls (prog : M.Hosts.Prog) (canon : Bool) (acts : List M.Hosts.Action)
+    (os : List M.Hosts.Obs) (h : M.Hosts.CoreHost) (hr : M.Hosts.runCore prog canon acts = some (os, h)) :
+    h.k.w.coreEvents = [] :=
+  M.Hosts.runCore_channel_empty prog canon acts os h hr
+
+theorem applied_events_never_revised (prog : M.Hosts.Prog) (canon : Bool) (acts : List M.Hosts.Action)
+    (os : List M.Hosts.Obs) (h : M.Hosts.CoreHost) (hr : M.Hosts.runCore prog canon acts = some (os, h))
+    (a : M.Hosts.Action) (o : M.Hosts.Obs) (h' : M.Hosts.CoreHost) (hs : h.step a = some (o, h')) :
+    ∃ s, h'.k.log = h.k.log ++ s :=
+  (M.Hosts.CoreHost.step_log h a o h' hs (M.Hosts.runCore_channel_empty prog canon acts os h hr)).2
 
 end Props.C03
